@@ -17,6 +17,12 @@ def mk_data(case):
 def junk_state(lib, which, seed):
     n = lib.sizeofState() if which == "fast" else lib.sizeofStateHC()
     rng = random.Random(seed)
+    # prior content of the state: random bytes, all zero, all 0xFF, all 0x01 (single flags forgotten by a
+    # field-by-field reset show up only for particular values)
+    k = seed % 4
+    if k == 1: return Buf(n, data=bytes(n))
+    if k == 2: return Buf(n, data=b"\xff" * n)
+    if k == 3: return Buf(n, data=b"\x01" * n)
     return Buf(n, data=rng.randbytes(n))
 
 def compress(lib, variant, p, srcb, n, dstb, cap, junk_seed=0):
